@@ -81,7 +81,7 @@ func evalJobs(prefix string, paths []Path, checks string, tier string, forceFunc
 			cfg = "funcs"
 		}
 		j := &engine.Job{ID: fmt.Sprintf("%s-%d", prefix, i), Harness: "zzH_Eval",
-			Params: map[string]string{"path": p.Text, "ast": p.Ast, "holes": p.Holes, "config": cfg, "checks": checks},
+			Params: map[string]string{"path": p.Text, "ast": p.Ast, "holes": p.Holes, "config": cfg, "checks": checks, "infilter": inFilterFlag(p)},
 		}
 		cfgs := evalDocCfgs(p, tier, number)
 		j.Docs = map[string]*engine.DocCfg{"doc": cfgs[0]}
@@ -223,7 +223,7 @@ func init() {
 			for i, p := range acc {
 				cfgs := evalDocCfgs(p, tier, false)
 				j := &engine.Job{ID: fmt.Sprintf("c04acc-%d", i), Harness: "zzH_Eval",
-					Params: map[string]string{"path": p.Text, "ast": p.Ast, "holes": p.Holes, "config": "funcs+accessor", "checks": "C04"},
+					Params: map[string]string{"path": p.Text, "ast": p.Ast, "holes": p.Holes, "config": "funcs+accessor", "checks": "C04", "infilter": "0"},
 					Docs:   map[string]*engine.DocCfg{"doc": cfgs[0]}, Budget: evalBudget(tier)}
 				for _, c := range cfgs[1:] {
 					j.Narrow = append(j.Narrow, map[string]*engine.DocCfg{"doc": c})
@@ -252,4 +252,14 @@ func init() {
 		Assumptions:  append([]string{specAssumption, "calls made while evaluating filter operands are not compared (their order is not fixed by the statement)"}, commonAssumptions...),
 		ExpectLabels: []string{"call-count", "call-order", "call-arguments"},
 	})
+}
+
+// inFilterFlag: "1" when a function call occurs inside a filter expression.
+func inFilterFlag(p Path) string {
+	for _, s := range p.Steps {
+		if (s.Kind == "filter" || s.Kind == "desc") && s.Funcs {
+			return "1"
+		}
+	}
+	return "0"
 }
